@@ -744,6 +744,9 @@ func TestC11Components(t *testing.T) {
 			}
 			g = dec[0]
 			labels.add("decoded")
+			if msg := cmpLib(g, m); msg != "" {
+				t.Fatalf("Decode: %s\n%v", msg, m)
+			}
 		}
 		// the map: every component id gets a drawn new id; plus unrelated keys
 		newGid := map[glyph.ID]glyph.ID{}
